@@ -1,7 +1,8 @@
 (* C10 property theorems (verified checker): the breakdown conserves the path weight and attributes it correctly. *)
 From HTA.lib Require Import Base Dag.
-From HTA.model Require Import C08_Model C08_Host.
-From HTA.proof Require Import C08_Proofs C08_HostProofs.
+From HTA.gen Require Import CpRules_gen.
+From HTA.model Require Import C08_Model C08_Host C08_Dev.
+From HTA.proof Require Import C08_Proofs C08_HostProofs C08_RulesTie.
 Open Scope Z_scope.
 
 (* host side, by proof about the builder's state machine: for EVERY depth-first traversal of properly nested events in time order,
@@ -11,6 +12,16 @@ Theorem C10_host_attribution_covers : forall tab acts t0,
   wf_actions tab [] [] t0 acts = true -> Forall (attribution_covers tab) (host_edges_of tab acts).
 Proof. exact host_attribution_covers. Qed.
 Print Assumptions C10_host_attribution_covers.
+
+(* the tie by regeneration: the attributions of the two builder models are those of the rule GENERATED from the current source
+   (CPGraph._attribute_edge: which edge types are attributed, and the chain choosing source event / destination event / parent) *)
+Theorem C10_attribution_follows_generated_rule :
+  (forall tab s a e, In e (snd (hstep tab s a)) -> rule_attr e (s_lastp s)) /\ (forall zw st r e, In e (snd (fst (dstep zw st r))) -> rule_attr e (-1)).
+Proof.
+  split; [intros tab s a e H; apply (host_rules_are_generated tab s a e H)|].
+  intros zw st r e H. destruct (dev_rules_are_generated zw st r e H) as [z [_ [_ H3]]]. exact H3.
+Qed.
+Print Assumptions C10_attribution_follows_generated_rule.
 
 Theorem C10_row_rule : forall clipped N r, brow_ok clipped N r = true ->
   exists nu nv, find_node N (r_u r) = Some nu /\ find_node N (r_v r) = Some nv /\
